@@ -10,11 +10,11 @@ use serde_json::{Map, Value, json};
 use std::collections::{BTreeMap, BTreeSet};
 use std::io::BufReader;
 use std::sync::Arc;
-use vrp_core::construction::heuristics::{InsertionContext, RouteContext, RouteState};
+use vrp_core::construction::heuristics::{InsertionContext, RouteContext, RouteState, UnassignmentInfo};
 use vrp_core::models::Problem as CoreProblem;
 use vrp_core::models::Solution as CoreSolution;
 use vrp_core::models::common::{Schedule, TimeWindow};
-use vrp_core::models::problem::{Actor, JobIdDimension, Multi, Single, VehicleIdDimension};
+use vrp_core::models::problem::{Actor, Job, JobIdDimension, Multi, Single, VehicleIdDimension};
 use vrp_core::models::solution::{Activity, Place as ActivityPlace, Route, Tour};
 use vrp_core::rosomaxa::prelude::HeuristicSolution;
 use vrp_pragmatic::checker::CheckerContext;
@@ -423,7 +423,7 @@ fn is_reserved(id: &str) -> bool {
 }
 
 /// relations that hold in the given solution by construction (the documentation asks for consistent relations)
-fn derive_relations(rng: &mut Rng, sp: &SProblem, sol: &Value) -> Vec<SRelation> {
+fn derive_relations(rng: &mut Rng, sp: &SProblem, sol: &Value, tails: &[(String, usize, String)]) -> Vec<SRelation> {
     let tours = sol["tours"].as_array().unwrap();
     let mut rels = vec![];
     for t in tours.iter() {
@@ -435,6 +435,22 @@ fn derive_relations(rng: &mut Rng, sp: &SProblem, sol: &Value) -> Vec<SRelation>
         let shift_index = t["shiftIndex"].as_u64().unwrap() as usize;
         let shift = if shift_index == 0 && rng.chance(1, 2) { None } else { Some(shift_index) };
         let count_in = |xs: &[String], id: &str| xs.iter().filter(|x| x.as_str() == id).count();
+        // a `strict` (or `sequence`) relation whose LAST job is the one a drop mutant takes out of this tour
+        if let Some((_, _, job)) = tails.iter().find(|(v, s, _)| *v == vid && *s == shift_index) {
+            if let Some(b) = ids.iter().rposition(|x| x == job) {
+                if rng.chance(5, 6) {
+                    let a = rng.usize(b.saturating_sub(4), b);
+                    let run = &ids[a..=b];
+                    let ok = run.iter().all(|id| is_reserved(id) || task_count(sp, id) == Some(count_in(run, id)));
+                    let head_first = ids.iter().position(|x| *x == run[0]) == Some(a);
+                    if ok && head_first {
+                        let kind = if rng.chance(2, 3) { "strict" } else { "sequence" };
+                        rels.push(SRelation { kind: kind.into(), jobs: run.to_vec(), vehicle_id: vid, shift_index: shift });
+                        continue;
+                    }
+                }
+            }
+        }
         match rng.below(3) {
             0 => {
                 // any: a subset of ids, each customer job listed once per task, reserved ids by occurrence
@@ -1191,6 +1207,106 @@ fn try_move(
     }
 }
 
+/// document-level filter for a dropped job: only its tour changed, the job is served nowhere and listed as unassigned,
+/// reported loads within capacity, a shift with breaks still carries one, limits respected
+fn dropped_document(sp: &SProblem, base: &Value, sol: &Value, job: &str, from: &(String, usize)) -> Result<(), &'static str> {
+    if !in_fragment(sol) {
+        return Err("outside_fragment");
+    }
+    if hits_open_deviation(sp, sol).is_some() {
+        return Err("open_deviation_shape");
+    }
+    let mut expected = unassigned_ids(base);
+    expected.push(job.to_string());
+    expected.sort();
+    if expected != unassigned_ids(sol) || base["violations"] != sol["violations"] {
+        return Err("unassigned_changed");
+    }
+    let tours = sol["tours"].as_array().unwrap();
+    let base_tours = base["tours"].as_array().unwrap();
+    let key_of = |t: &Value| (t["vehicleId"].as_str().unwrap().to_string(), t["shiftIndex"].as_u64().unwrap() as usize);
+    if tours.len() != base_tours.len() {
+        return Err("tour_count");
+    }
+    for t in base_tours {
+        let k = key_of(t);
+        if k != *from && sol_tour(sol, &k) != Some(t) {
+            return Err("other_tour_changed");
+        }
+    }
+    for t in tours {
+        if tour_has_job(t, job) {
+            return Err("job_still_served");
+        }
+        let k = key_of(t);
+        if k != *from {
+            continue;
+        }
+        let Some(vt) = vehicle_type_index(sp, &k.0) else { return Err("no_vehicle_type") };
+        let v = &sp.vehicles[vt];
+        for (d, cap) in v.capacity.iter().enumerate() {
+            if stop_loads_max(t, d) > *cap {
+                return Err("over_capacity");
+            }
+        }
+        let shift_breaks = v.shifts.get(k.1).map(|s| !s.breaks.is_empty()).unwrap_or(false);
+        let has_break = t["stops"].as_array().unwrap().iter().any(|s| acts_of(s).iter().any(|a| a["type"] == "break"));
+        if shift_breaks && !has_break {
+            return Err("break_rule_in_play");
+        }
+        if v.max_distance.is_some_and(|m| t["statistic"]["distance"].as_i64().unwrap_or(i64::MAX) > m)
+            || v.max_duration.is_some_and(|m| t["statistic"]["duration"].as_i64().unwrap_or(i64::MAX) > m)
+        {
+            return Err("over_limit");
+        }
+    }
+    Ok(())
+}
+
+/// takes the single-task job served by activity `ai` of route `ri` out of its tour and lists it as unassigned; the
+/// document is re-rendered by the real writer. None when what is left is not a clean document
+fn try_drop(
+    sp: &SProblem,
+    problem: &Arc<CoreProblem>,
+    ctx0: &InsertionContext,
+    base: &Value,
+    (ri, ai): (usize, usize),
+    job_id: &str,
+    why: &mut BTreeMap<String, usize>,
+) -> Option<Value> {
+    let mut note = |w: &str| *why.entry(format!("drop:{w}")).or_default() += 1;
+    let src = &ctx0.solution.routes[ri];
+    let single: Arc<Single> = src.route().tour.get(ai)?.job.clone()?;
+    let from = actor_key(src.route().actor.as_ref());
+    let src_rc = fresh_route(problem, src.route().actor.clone(), tour_without(src.route(), ai));
+    if src_rc.route().tour.job_count() == 0 {
+        note("tour_would_be_empty");
+        return None;
+    }
+    if !time_feasible(&src_rc) {
+        note("source_infeasible");
+        return None;
+    }
+    let mut ctx = ctx0.deep_copy();
+    ctx.solution.routes[ri] = src_rc;
+    let _ = ctx.solution.routes[ri].route_mut();
+    problem.goal.accept_route_state(&mut ctx.solution.routes[ri]);
+    ctx.solution.unassigned.insert(Job::Single(single), UnassignmentInfo::Unknown);
+    problem.goal.accept_solution_state(&mut ctx.solution);
+    if ctx.solution.routes.len() != ctx0.solution.routes.len() || !ctx.solution.routes.iter().all(time_feasible) {
+        note("infeasible_after_accept");
+        return None;
+    }
+    let sol = render_ctx(problem, &ctx)?;
+    match dropped_document(sp, base, &sol, job_id, &from) {
+        Ok(()) => Some(sol),
+        Err(w) => {
+            note(w);
+            None
+        }
+    }
+}
+
 /// clean split mutants of one solved problem: (class, job, target tour, re-rendered solution)
 fn clean_splits(
     rng: &mut Rng,
@@ -1256,6 +1372,37 @@ fn clean_splits(
             }
         }
     }
+    // dropped jobs: the LAST single-task job of a tour (the tail of whatever relation runs up to the end of the tour) is
+    // taken out and listed as unassigned; every other rule still holds, so the document is valid unless a `sequence` or
+    // `strict` relation names the job
+    let mut n_drop = 0;
+    for (ri, rc) in ctx0.solution.routes.iter().enumerate() {
+        if n_drop >= 3 {
+            break;
+        }
+        let tour = &rc.route().tour;
+        let Some((ai, single)) = tour
+            .all_activities()
+            .enumerate()
+            .filter_map(|(ai, a)| a.job.as_ref().map(|s| (ai, s.clone())))
+            .filter(|(_, s)| Multi::roots(s).is_none())
+            .last()
+        else {
+            continue;
+        };
+        // the last activity with a job may be a marker (reload, break): only customer jobs of the plan are dropped
+        let Some(id) = single.dimens.get_job_id().cloned() else { continue };
+        let Some(job) = sp.jobs.iter().find(|j| j.id == id && j.tasks.len() == 1) else { continue };
+        if job.group.is_some() || tour.all_activities().skip(ai + 1).any(|a| a.job.is_some()) {
+            continue;
+        }
+        let from = actor_key(rc.route().actor.as_ref());
+        if let Some(sol) = try_drop(sp, problem, &ctx0, base, (ri, ai), &id, why) {
+            n_drop += 1;
+            out.push(json!({"cls": "clean_drop_last_job", "site": format!("{id}:{}#{}", from.0, from.1), "job": id,
+                            "from": [from.0, from.1], "sol": sol}));
+        }
+    }
     out
 }
 
@@ -1292,7 +1439,7 @@ fn solve(sp: &SProblem, generations: usize, vseed: u64, caps: (usize, usize)) ->
         let clean = if caps == (0, 0) || !in_fragment(&sol) || hits_open_deviation(&sp, &sol).is_some() {
             vec![]
         } else {
-            let mut rng = Rng::new(vseed);
+            let mut rng = Rng::derived(vseed);
             std::panic::catch_unwind(std::panic::AssertUnwindSafe(|| clean_splits(&mut rng, &sp, &problem, solution, &sol, caps, &mut why)))
                 .unwrap_or_default()
         };
@@ -1510,12 +1657,18 @@ fn gen_cases(rng: &mut Rng, tier: Tier) -> Vec<Value> {
             continue;
         }
         i += 1;
-        if rng.chance(1, 2) {
-            sp.relations = derive_relations(rng, &sp, &sol);
+        // tails: the jobs a drop mutant takes out of their tours; half of these tours get a `strict` relation that ends there
+        let tails: Vec<(String, usize, String)> = clean
+            .iter()
+            .filter(|m| m["cls"] == "clean_drop_last_job")
+            .map(|m| (m["from"][0].as_str().unwrap_or("").to_string(), m["from"][1].as_u64().unwrap_or(0) as usize, m["job"].as_str().unwrap_or("").to_string()))
+            .collect();
+        if rng.chance(1, 2) || (!tails.is_empty() && rng.chance(3, 4)) {
+            sp.relations = derive_relations(rng, &sp, &sol, &tails);
         }
         let mut muts = if probe { vec![] } else { mutants(rng, &sp, &sol) };
         for mut m in clean {
-            let rel = relations_after_split(&sp, &m);
+            let rel = if m["cls"] == "clean_drop_last_job" { sp.relations.clone() } else { relations_after_split(&sp, &m) };
             if rel.len() != sp.relations.len() {
                 m["rel"] = json!(rel);
             }
